@@ -215,9 +215,49 @@ def card_tm(draw, cands):
     return tm
 
 
+def _multi_instances(cards):
+    """[(prop name, [(value, [TYPE values])...])] for properties that occur >= 2 times in one card."""
+    out = []
+    for raw in cards:
+        try:
+            c = icalref.parse_one(raw, "VCARD")
+        except icalref.ParseError:
+            continue
+        for name in ("EMAIL", "TEL"):
+            ps = c.get(name)
+            if len(ps) >= 2:
+                out.append((name, [(icalref.unescape_text(p.value), p.param("TYPE") or []) for p in ps]))
+    return out
+
+
+@st.composite
+def cross_instance_filter(draw, cards):
+    """Two conditions of one prop-filter that are each true on a *different* instance of a repeated
+    property: the prop-filter must match only if a single instance satisfies both."""
+    multi = _multi_instances(cards)
+    if not multi:
+        return None
+    name, insts = draw(st.sampled_from(multi))
+    i = draw(st.integers(0, len(insts) - 1))
+    j = draw(st.integers(0, len(insts) - 1))
+    va, ta = insts[i]
+    vb, tb = insts[j]
+    tm_a = {"text": va, "collation": "i;octet", "negate": False, "match_type": draw(st.sampled_from(["equals", "contains"]))}
+    if tb and draw(st.booleans()):
+        return {"name": name, "text_matches": [tm_a], "params": [{"name": "TYPE", "text_match": {"text": tb[0], "collation": "i;octet", "negate": False, "match_type": "equals"}}]}
+    if not tb and draw(st.booleans()):
+        return {"name": name, "text_matches": [tm_a], "params": [{"name": "TYPE", "is_not_defined": True}]}
+    return {"name": name, "text_matches": [tm_a, {"text": vb[-4:], "collation": "i;octet", "negate": False, "match_type": "ends-with"}]}
+
+
 @st.composite
 def card_prop_filter(draw, cards):
-    kind = draw(st.sampled_from(["present", "undef", "tm", "tm", "tm", "tm2", "param-undef", "param-tm"]))
+    kind = draw(st.sampled_from(["present", "undef", "tm", "tm", "tm", "tm2", "param-undef", "param-tm", "cross", "cross"]))
+    if kind == "cross":
+        f = draw(cross_instance_filter(cards))
+        if f is not None:
+            return f
+        kind = "tm2"
     if kind == "present":
         return {"name": _mixed(draw, draw(st.sampled_from(PRESENCE_TARGETS)))}
     if kind == "undef":
